@@ -220,7 +220,19 @@ let check_case acc ~klass ~with_info (c : wcfg) (ops : (string * string) list) =
       | Exited (_, s) -> mism "[C01]" "harness error in read_back" s "");
      let x = { ex_block_size = mo.wo_block_size; ex_interval = mo.wo_interval; ex_comp = mo.wo_comp } in
      (match parse_table oracle_decompress (n_of_u64 c.prefix) (nl_of_string bytes) with
-      | Inl code -> viol "[C09,C01]" "file does not decode with the independent decoder" (Printf.sprintf "parse error %d" (int_of_n code))
+      | Inl code ->
+        viol "[C09,C01]" "file does not decode with the independent decoder" (Printf.sprintf "parse error %d" (int_of_n code));
+        (* is it the trailer that lies?  the statistics that locate the index block must be consistent with the file
+           itself: index offset = initial offset + bytes of data blocks, and index offset + index bytes + trailer = end *)
+        let n = String.length bytes in
+        if n >= 512 then
+          (match parse_trailer (nl_of_string (String.sub bytes (n - 512) 512)) with
+           | Some tr ->
+             let ibo = u64_of_n tr.tr_index_block_offset and bdb = u64_of_n tr.tr_bytes_data_blocks and bib = u64_of_n tr.tr_bytes_index_block in
+             if ibo <> Int64.add c.prefix bdb || Int64.add (Int64.add ibo bib) 512L <> Int64.add c.prefix (Int64.of_int n) then
+               viol "[C10]" "trailer statistics differ from the truth about the file: index_block_offset / bytes_data_blocks / bytes_index_block do not add up to the file"
+                 (Printf.sprintf "index_block_offset=%Ld bytes_data_blocks=%Ld bytes_index_block=%Ld initial offset=%Ld table bytes=%d" ibo bdb bib c.prefix n)
+           | None -> ())
       | Inr t ->
         let code = int_of_n (wf_validate (n_of_u64 c.prefix) x t) in
         if code = 18 then viol "[C10]" "trailer statistics differ from the truth about the file" "E_META"
